@@ -1,4 +1,5 @@
 import QR.Proofs.Raster
+import QR.Proofs.SourceTie
 /-
 C12 - raster geometry (image/base.py, pure.py, pil.py).  Both raster back ends produce a square of
 `(modules + 2*border) * box_size` pixels in which pixel (x, y) has the fill colour iff module
@@ -77,5 +78,11 @@ example : let M : Mods := [[true, false], [false, true]]
        [1,1,1,1,1,1,1,1], [1,1,1,1,1,1,1,1]] ∧
     (pilRaster M 2 1 2).toList.map (fun r => r.toList.map fun b => if b then 0 else 1) = pypngRows M 2 1 2 := by
   decide
+
+/-! ### tie to the source: the model's expressions are the ones translated from the current Python AST (T2) -/
+
+/-- `BaseImage.pixel_box` as it stands in the source is the model's `pixelBox` -/
+theorem C12_source_pixel_box (border box row col : Nat) :
+    Gen.Code.pixel_box border box row col = pixelBox border box row col := QR.SourceTie.pixelBox_eq border box row col
 
 end QR.Props
